@@ -3,6 +3,7 @@
 // warun: runs Wa programs through the public API (api.RunCode / api.BuildFile) in-process.
 //   warun run  <file> [virtual-name]    -> prints program output; exit status 0 ok / 3 error (message on stderr)
 //   warun wat  <file> [virtual-name]    -> prints the WAT text
+//   warun wasm <file> <out.wasm> [virtual-name] -> BuildFile + Wat2Wasm, writes the binary (exit 3 + message on error)
 //   warun batch                          -> stdin: one "<mode> <file> [virtual-name]" per line; stdout per line:
 //                                          "<status> <hex of output>"  (status: ok | err | panic)
 // The compiler may call logger.Fatal (os.Exit); callers run risky programs in their own process.
@@ -16,6 +17,7 @@ import (
 	"strings"
 
 	"wa-lang.org/wa/api"
+	"wa-lang.org/wa/internal/wat/watutil"
 	"wa-lang.org/wa/internal/zz_verif/vh"
 )
 
@@ -50,6 +52,36 @@ func runOne(mode, file, vname string) (status string, out []byte) {
 }
 
 func main() {
+	if len(os.Args) >= 4 && os.Args[1] == "wasm" {
+		vn := filepath.Base(os.Args[2])
+		if len(os.Args) > 4 {
+			vn = os.Args[4]
+		}
+		src, err := os.ReadFile(os.Args[2])
+		if err != nil {
+			fmt.Fprintln(os.Stderr, "STATUS: err", err)
+			os.Exit(3)
+		}
+		st := vh.Safe(func() string {
+			_, wat, _, err := api.BuildFile(api.DefaultConfig(), vn, string(src))
+			if err != nil {
+				return "typecheck-or-build-error: " + err.Error()
+			}
+			bin, err := watutil.Wat2Wasm(vn, wat)
+			if err != nil {
+				return "wat2wasm-error: " + err.Error()
+			}
+			if err := os.WriteFile(os.Args[3], bin, 0o644); err != nil {
+				return "write-error: " + err.Error()
+			}
+			return "ok"
+		})
+		fmt.Println(st)
+		if st != "ok" {
+			os.Exit(3)
+		}
+		return
+	}
 	if len(os.Args) >= 3 && (os.Args[1] == "run" || os.Args[1] == "wat") {
 		vn := ""
 		if len(os.Args) > 3 {
